@@ -61,12 +61,17 @@ def run_case(ctx, kind_, idx):
                 return
             if which == "value_map":
                 if adaptive:
-                    a = float(rng.choice([-1, 1])) * 2.0 ** int(rng.integers(-3, 5))
-                    b = float(rng.integers(-8, 9))
+                    # exactly representable maps; the exponent range includes changes of unit by many orders of
+                    # magnitude (bit/s <-> Tbit/s), where absolute thresholds hidden in the code would show
+                    a = float(rng.choice([-1, 1])) * 2.0 ** int(rng.choice([int(rng.integers(-3, 5)), int(rng.integers(-60, -20)),
+                                                                              int(rng.integers(20, 60))]))
+                    # a*y + b must stay exactly representable: integer shifts only next to moderate scales
+                    b = float(rng.integers(-8, 9)) if 2.0 ** -3 <= abs(a) <= 2.0 ** 5 else 0.0
                 else:
-                    a = float(rng.normal(0, 3))
-                    a = a if abs(a) > 1e-3 else 1.5
-                    b = float(rng.normal(0, 5)) * (float(np.max(np.abs(y))) or 1.0)
+                    a = float(rng.normal(0, 3)) if rng.integers(0, 3) else \
+                        float(rng.choice([-1, 1])) * 10.0 ** float(rng.uniform(-12, 12))
+                    a = a if abs(a) > 1e-3 or abs(a) < 1e-6 else 1.5
+                    b = float(rng.normal(0, 5)) * (float(np.max(np.abs(y))) or 1.0) * min(abs(a), 1.0)
                 info["map"] = [a, b]
                 xs2, ys2 = R.run(strat, x, a * y + b, n, kw)
                 ctx.judged()
